@@ -221,4 +221,27 @@ PROPS = {
         "assumptions": ["input records are an RRset-complete zone with the SOA at the apex, as SortedRecords presents them",
                         "with opt-out and exclusion on, an unsigned delegation gets no NSEC3 and implies no empty non-terminal by itself (RFC 5155 7.1)"],
     },
+    "C10": {
+        "level": "exploration",
+        "features": ["crypto", "hooks"],
+        "stages": [
+            {"mode": "native", "cpu_budget": 240},
+            {"mode": "asan", "shards": 4, "scale": 0.1, "tiers": ["thorough"], "cpu_budget": 900},
+        ],
+        "rule": "an evaluation is one of: (a) one commit on the sender's zone (2-4 versions per case, edited through ZoneUpdater record updates, ZoneUpdater full "
+                "replacement or the WritableZone RRset interface, serials including wrap-around) whose reported InMemoryZoneDiff, applied to the old model "
+                "content, must give the new content; (b) one end-to-end transfer: the real XfrMiddlewareSvc (TCP, compatibility mode, small messages through "
+                "reserved bytes, UDP IXFR) answers an AXFR/IXFR query, its stream is checked by the reference framing machine (RFC 5936 2.2 / RFC 1995 4) and "
+                "fed through Message::is_answer + XfrResponseInterpreter + ZoneUpdater into a receiving zone (empty, old version, unrelated content); (c) one "
+                "re-packaging of the canonical AXFR / IXFR / AXFR-in-reply-to-IXFR record sequence (all-in-one, one RR per message, random splits, question "
+                "repeated or not, compressed or not); (d) one fault on such a stream (drop/duplicate/reorder/truncate message, QR/opcode/rcode/TC/counts, "
+                "wrong question name/type/class, missing question, missing/mismatched first or final SOA, missing inner IXFR SOA, record outside the zone). "
+                "The receiving zone's walk() is sampled after every applied update: every content readers see must be the previous version or a complete "
+                "version of the transfer; accepted transfers must leave exactly the content the stream denotes; streams the RFCs make invalid must not be "
+                "accepted; no panic; distinct = (kind, packaging class / fault kind, accepted?, update count class, versions)",
+        "assumptions": ["the caller checks the first reply with Message::is_answer and the ID of every reply, as XfrResponseInterpreter's documentation demands",
+                        "the receiving zone was itself filled through the updater (as a secondary's zone is)",
+                        "where the RFCs are silent (records after the closing SOA, a foreign SOA inside an AXFR, IXFR difference sequences not starting at the "
+                        "receiver's serial, a fault after the transfer was already complete) only absence of panics and of partial versions is required"],
+    },
 }
